@@ -383,9 +383,26 @@ def _load_order(repo_src: Path, rname: str) -> list[str]:
 
 # ------------------------------------------------------------------------------------------------ whole extraction
 def extract_all(repo_src: Path, with_load: bool = True) -> dict:
-    objs = {n: extract_object(repo_src, n) for n in OBJ_MODULES}
-    roots = {n: extract_root(repo_src, n, with_load) for n in ROOT_MODULES}
-    return {"objects": objs, "roots": roots, "dispatch": extract_dispatch(repo_src)}
+    """Per-unit extraction.  A unit (one object adapter, one collection adapter, the dispatch table) whose code is not of
+    a shape the translator understands is listed under "unreadable" and left out: for it the schema table is used and the
+    tie to the code is the correspondence run alone.  (Unreadable is not evidence against a property; a unit that IS read
+    and differs from the table is: see `differences`.)"""
+    out = {"objects": {}, "roots": {}, "dispatch": None, "unreadable": []}
+    for n in OBJ_MODULES:
+        try:
+            out["objects"][n] = extract_object(repo_src, n)
+        except Exception as e:
+            out["unreadable"].append(f"{n}: {type(e).__name__}: {e}")
+    for n in ROOT_MODULES:
+        try:
+            out["roots"][n] = extract_root(repo_src, n, with_load)
+        except Exception as e:
+            out["unreadable"].append(f"{n}: {type(e).__name__}: {e}")
+    try:
+        out["dispatch"] = extract_dispatch(repo_src)
+    except Exception as e:
+        out["unreadable"].append(f"ADAPTERS/dispatch: {type(e).__name__}: {e}")
+    return out
 
 
 def masks(ex: dict) -> tuple[dict, dict]:
@@ -397,18 +414,28 @@ def masks(ex: dict) -> tuple[dict, dict]:
             wr[n] = [True] * len(c["scalars"])  # built inline by their parents (tuples / nested constructor): see differences()
             rd[n] = [True] * len(c["scalars"])
             continue
-        o = ex["objects"][n]
-        wr[n] = [(df in o["written"]) and (f in o["written_from"].get(df, [])) for f, df, _ in c["scalars"]]
-        rd[n] = [(f in o["read_from"]) and (df in o["read_from"].get(f, [])) for f, df, _ in c["scalars"]]
+        o = ex["objects"].get(n)
+        if o is None:  # unreadable: the table's rows stand
+            wr[n] = [True] * len(c["scalars"])
+            rd[n] = [True] * len(c["scalars"])
+            continue
+        # a field is written / read when the constructor call has that keyword (syntactic, robust under refactoring)
+        wr[n] = [df in o["written"] for f, df, _ in c["scalars"]]
+        rd[n] = [f in o["read_from"] for f, df, _ in c["scalars"]]
     return wr, rd
 
 
-def differences(ex: dict) -> list[str]:
-    """where the code, as extracted, departs from the schema table"""
+def differences(ex: dict, advisory: bool = False) -> list[str]:
+    """where the code, as extracted, departs from the schema table.
+    Binding (default): purely syntactic facts — which keywords the final constructors have, in which order nested adapters
+    are first called, which top-level lists are snapshots taken before which conversions.
+    Advisory (advisory=True): facts that rest on the translator's simple data-flow reading (which obj.<field> a keyword is
+    computed from; the re-registration order, which helper methods can hide) — recorded, never decisive."""
     out = []
+    adv = []
     for c in A.CLASSES:
         n = c["name"]
-        if n in ("PredictedTag", "StatusBadge"):
+        if n in ("PredictedTag", "StatusBadge") or n not in ex["objects"]:
             continue
         o = ex["objects"][n]
         want_w = {s[1] for s in c["scalars"]} | {k[1] for k in c["kids"]} | ({"uuid"} if c["key"] == "uuid" else {"id"})
@@ -419,14 +446,14 @@ def differences(ex: dict) -> list[str]:
             out.append(f"{n}: data fields rebuilt {sorted(set(o['read_from']) ^ want_r)} differ from the schema")
         for f, df, _codec in c["scalars"]:
             if df in o["written"] and f not in o["written_from"].get(df, []):
-                out.append(f"{n}: document field {df} is not computed from obj.{f}")
+                adv.append(f"{n}: document field {df} is not computed from obj.{f}")
             if f in o["read_from"] and df not in o["read_from"].get(f, []):
-                out.append(f"{n}: data field {f} is not rebuilt from obj.{df}")
+                adv.append(f"{n}: data field {f} is not rebuilt from obj.{df}")
         for f, df, _t, _c, _h in c["kids"]:
             if df in o["written"] and f not in o["written_from"].get(df, []):
-                out.append(f"{n}: reference field {df} is not computed from obj.{f}")
+                adv.append(f"{n}: reference field {df} is not computed from obj.{f}")
             if f in o["read_from"] and df not in o["read_from"].get(f, []):
-                out.append(f"{n}: reference field {f} is not rebuilt from obj.{df}")
+                adv.append(f"{n}: reference field {f} is not rebuilt from obj.{df}")
         # registration order of nested conversions (inline kids contribute their own references)
         want_order = []
         for _f, _df, tgt, _c2, how in c["kids"]:
@@ -439,12 +466,14 @@ def differences(ex: dict) -> list[str]:
         if got != want_order:
             out.append(f"{n}: nested conversions are first made in the order {got}, the schema has {want_order}")
     for r in A.ROOTS:
-        e = ex["roots"][r["name"]]
+        e = ex["roots"].get(r["name"])
+        if e is None:
+            continue
         if e["load"] != r["load"]:
-            out.append(f"{r['name']}: re-registration order {e['load']} differs from the schema's {r['load']}")
+            adv.append(f"{r['name']}: re-registration order {e['load']} differs from the schema's {r['load']}")
         if _normal(e["steps"]) != _normal(r["steps"]):
             out.append(f"{r['name']}: to_aoef steps {e['steps']} differ from the schema's {r['steps']}")
-    return out
+    return adv if advisory else out
 
 
 def _normal(steps):
